@@ -280,7 +280,7 @@ func ruleLogWriterLocked(r *Report) {
 			continue
 		}
 		fr, _ := fieldOf(fa)
-		if fr.Struct != "commit.Log" || (fr.Field != "writer" && fr.Field != "reader") {
+		if fr.Struct != "commit.Log" || (fr.Field != "writer" && fr.Field != "reader" && fr.Field != "source") {
 			continue
 		}
 		// a store of the field is construction
@@ -292,6 +292,32 @@ func ruleLogWriterLocked(r *Report) {
 		}
 		if isStore {
 			continue
+		}
+		if fr.Field == "source" {
+			// the field is set at construction and never reassigned: what needs the mutex is I/O on it
+			// (Seek, Read/Write through io.Copy, Close), not asking the file for its name
+			io := false
+			for _, ref := range *fa.Referrers() {
+				ld, isLd := ref.(*ssa.UnOp)
+				if !isLd {
+					continue
+				}
+				dependsOnUse(ld, func(u ssa.Instruction) {
+					if cc, _, _ := callCommon(u); cc != nil {
+						if cc.IsInvoke() {
+							switch cc.Method.Name() {
+							case "Seek", "Read", "Write", "Close", "Sync", "Truncate":
+								io = true
+							}
+						} else if sc := cc.StaticCallee(); sc != nil && sc.Pkg != nil && sc.Pkg.Pkg.Path() == "io" {
+							io = true
+						}
+					}
+				}, 4)
+			}
+			if !io {
+				continue
+			}
 		}
 		key := "commit.Log." + fr.Field + "/" + fnName(topFn(ins.Parent()))
 		a := per[key]
@@ -382,4 +408,142 @@ func ruleSwapInPlaceSameSize(r *Report) {
 		}
 	})
 	h.Check(bad == "" && n > 0, "(*commit.Reader).SwapBytes/in-place", r.P.Pos(fn.Pos()), "in place only when i1-i0 == len(v)", "SwapBytes overwrites the value in place on an edge where the sizes may differ ("+bad+"): the length prefix keeps the old size, so every later reader of the buffer — the index pass, the log, the replica — decodes the new value followed by the tail of the old one")
+}
+
+// dependsOnUse visits the instructions that use v, directly or through conversions, type assertions
+// and tuple extractions (forward def-use, bounded).
+func dependsOnUse(v ssa.Value, visit func(ssa.Instruction), depth int) {
+	if depth < 0 || v.Referrers() == nil {
+		return
+	}
+	for _, ref := range *v.Referrers() {
+		visit(ref)
+		switch x := ref.(type) {
+		case *ssa.TypeAssert, *ssa.Extract, *ssa.ChangeInterface, *ssa.MakeInterface, *ssa.Convert, *ssa.ChangeType, *ssa.Phi:
+			dependsOnUse(x.(ssa.Value), visit, depth-1)
+		}
+	}
+}
+
+// ruleLookupUnderLatch (C03.twopass/lookup-under-latch): the list of computed columns that a commit
+// applies a buffer to is looked up while the block's exclusive latch is held. CreateIndex/CreateTrigger
+// and DropIndex/DropTrigger return once the registry is changed; a commit that resolved the list
+// before taking the latch applies stores after a trigger was created without telling it, or keeps
+// calling a trigger after it was dropped.
+func ruleLookupUnderLatch(r *Report) {
+	L := r.Shared.Lockset()
+	h := r.Rule("C03.twopass", "P", "", 5)
+	n := 0
+	var bad ssa.Instruction
+	var w *LSite
+	for ins, ss := range L.At {
+		cc, _, _ := callCommon(ins)
+		if cc == nil || !calleeIs(cc, "(*column.columns).LoadWithIndex") {
+			continue
+		}
+		for i := range ss {
+			s := &ss[i]
+			if !pathHas(s.Ctx, "(*column.Txn).commit") {
+				continue
+			}
+			n++
+			if !s.Held.hasW("latch") && bad == nil {
+				bad, w = ins, s
+			}
+		}
+	}
+	if n == 0 {
+		return
+	}
+	if bad != nil {
+		o := h.Bad("lookup-under-latch", r.P.InstrPos(bad), "the commit looks the column's list of indexes and triggers up before it holds the block's exclusive latch: a trigger or index created (dropped) by another goroutine in between misses (still receives) the stores this commit applies after the creation (the drop) returned")
+		setWitness(o, w)
+	} else {
+		h.OK("lookup-under-latch", "-", fmt.Sprintf("%d lookups below commit hold the block latch", n))
+	}
+}
+
+// rulePoolRelease (L11): an object handed back to a sync.Pool belongs to whoever Gets it next. No
+// library function returns an object it also Puts (a deferred Put runs before the caller sees the
+// result), and none uses it after a Put that is not deferred.
+func rulePoolRelease(r *Report) {
+	h := r.Rule("L11", "typestate", "an object put back into a sync.Pool is not used afterwards: no function returns (or stores) an object it also Puts — a deferred Put releases it before the caller sees it — and no use follows a Put on the same path", 1)
+	var fns []*ssa.Function
+	for fn := range r.P.modFunc {
+		fns = append(fns, fn)
+	}
+	sortFuncs(fns)
+	n := 0
+	for _, fn := range fns {
+		var puts []ssa.Instruction
+		allInstrs(fn, func(ins ssa.Instruction) {
+			if cc, _, _ := callCommon(ins); cc != nil && calleeIs(cc, "(*sync.Pool).Put") && len(cc.Args) == 2 {
+				puts = append(puts, ins)
+			}
+		})
+		if len(puts) == 0 {
+			continue
+		}
+		n++
+		bad := ""
+		for _, p := range puts {
+			cc, isDefer, _ := callCommon(p)
+			obj := cc.Args[1]
+			for {
+				if mi, ok := obj.(*ssa.MakeInterface); ok {
+					obj = mi.X
+					continue
+				}
+				break
+			}
+			origin := norm(obj) // a variable assigned once (a named result): the value it was given
+			cellOf := func(v ssa.Value) *ssa.Alloc {
+				if ld, ok := v.(*ssa.UnOp); ok && ld.Op == token.MUL {
+					if al, ok := ld.X.(*ssa.Alloc); ok {
+						return al
+					}
+				}
+				return nil
+			}
+			same := func(v ssa.Value) bool {
+				// two loads of one local variable (a named result is spilled and re-loaded round the
+				// deferred calls)
+				if c1, c2 := cellOf(obj), cellOf(v); c1 != nil && c1 == c2 {
+					return true
+				}
+				if nv := norm(v); nv == origin && nv != nil {
+					return true
+				}
+				return dependsOn(v, func(z ssa.Value) bool { return z == obj || (z == origin && origin != nil) }, 3)
+			}
+			// returned?
+			for _, ret := range returnsOf(fn) {
+				for _, res := range ret.Results {
+					if same(res) && (isDefer || canReach(p, ret)) {
+						bad = r.P.InstrPos(p) + ": the object is returned to the caller although it was put back into the pool"
+					}
+				}
+			}
+			// used after a direct Put?
+			if !isDefer && obj.Referrers() != nil {
+				for _, ref := range *obj.Referrers() {
+					if ref != p && ref.Block() != nil && canReach(p, ref) && !(ref.Block() == p.Block() && instrIndex(ref) < instrIndex(p)) {
+						if _, isDbg := ref.(*ssa.DebugRef); !isDbg {
+							bad = r.P.InstrPos(ref) + ": used after it was put back into the pool"
+						}
+					}
+				}
+			}
+		}
+		h.Check(bad == "", fnName(fn), r.P.Pos(fn.Pos()), "pooled objects are not used after their release", "a pooled object is used after it was released ("+bad+"): the next Get — another goroutine merging in another block — receives the same object while this one still reads or writes it")
+	}
+	_ = n
+}
+
+func sortFuncs(fns []*ssa.Function) {
+	for i := 1; i < len(fns); i++ {
+		for j := i; j > 0 && fnName(fns[j]) < fnName(fns[j-1]); j-- {
+			fns[j], fns[j-1] = fns[j-1], fns[j]
+		}
+	}
 }
